@@ -5,10 +5,29 @@ from pathlib import Path
 ROOT = Path(__file__).resolve().parent.parent
 BASE = json.load(open("/root/.vp/BASELINE.json"))["cmd"].replace(" --junitxml=<file>", "")
 
+SYS_NOTE = ("Bounded design space D (spec/designs.py: curated core + VERIF_SEED random draws, sequence space <= 60000 quick / 400000 thorough); "
+            "reference reading of the documentation in spec/model.py is three-valued and trusted; pycryptosat trusted for 'unsat'; "
+            "deductive links (pyvc.wp / concolic contracts) are proved for all inputs and reported as tier P inside the evidence.")
+
 CHECKS = {
-    "C10": dict(cat="other", tech="contracts on the real encoders; concolic execution + z3 per shape (ids/assignments unbounded), Lemma DE; native SAT replay",
-                text="Per (relation, n, k) shape the real encoder is executed with symbolic variable ids and z3 proves, for all ids and all 2^n assignments at once, that the asserted clauses hold iff the count relation holds, against the callee contracts of pop_count/ripple_carry, and that every auxiliary variable is defined exactly once (unique extension). Bounded only in n and k (quick n<=9, thorough n<=16,k<=40); dispatch and request round-trip are bounded evaluation on the real code.",
-                note="Bounded in (n,k); Lemma DE is a paper lemma; z3/cvc5 and pycryptosat trusted; int_to_binary and math.log evaluated concretely per shape.", ref="4.1 C10"),
+    "C01": dict(cat="other", tech="contract on synthesize_trials checked per design: all models of the real compiled CNF (SAT enumeration) + returned sequences vs reference predicate; wp-proved window/applicability links",
+                text="For each design of the bounded space D every model of the formula the library really compiles is enumerated (independent blocking loop), decoded with the library's decoder and must not be invalid under an independent reading of the documentation; sequences returned by IterateSATGen (thorough: CMSGen, UniGen, IterateGen) likewise. Unbounded content: the pyvc.wp proofs of the repetition-window and applicability functions and the C10/C12 encoder contracts it rests on.",
+                note=SYS_NOTE, ref="4.3 C01"),
+    "C02": dict(cat="other", tech="exhausted IterateSATGen / projected model set of the compiled CNF vs brute-force valid set of the reference predicate, with multiplicities",
+                text="Per design of D whose whole sequence space can be enumerated: the set (and multiplicities) returned by exhausting IterateSATGen, and the projected model set of the compiled formula, equal the independently computed valid set (definitely-valid subset must be returned, nothing definitely invalid may be).",
+                note=SYS_NOTE, ref="4.3 C02"),
+    "C03": dict(cat="other", tech="per projected model of the real CNF a SAT query for a second auxiliary extension (must be unsat); Lemma DE over builder contracts",
+                text="Per design of D and per projected model of the compiled formula, a second extension to the auxiliary variables is refuted by SAT. The unbounded argument is Lemma DE over the `.defs` obligations of C10/C12 and the Tseitin contracts of C11.",
+                note=SYS_NOTE, ref="4.3 C03"),
+    "C07": dict(cat="exploration", tech="relational: exhausted IterateSATGen set == exhausted RandomGen set per design (no oracle)",
+                text="Bounded exploration of D: both samplers are exhausted on every design both accept and the sets of sequences must be equal by level names.",
+                note="Bounded design space; designs on which a sampler is not exhausted within the limit are reported undecided.", ref="4.3 C07"),
+    "C08": dict(cat="other", tech="raises-nothing contract: wp safety obligations (proved) + every design of D run with each strategy",
+                text="Safety obligations (index in bounds, divisor non-zero, undeclared raise unreachable) of the window/unranking functions are proved by pyvc.wp for all inputs; every design of D that the constructors accept is synthesized with IterateSATGen and RandomGen (thorough: CMSGen, UniGen) and must not raise.",
+                note=SYS_NOTE, ref="4.3 C08"),
+    "C10": dict(cat="other", tech="contracts on the real encoders; concolic execution + z3 per shape (ids/assignments unbounded), Lemma DE; int_to_binary proved by pyvc.wp; native SAT replay",
+                text="Per (relation, n, k) shape the real encoder is executed with symbolic variable ids and z3 proves, for all ids and all 2^n assignments at once, that the asserted clauses hold iff the count relation holds, against the callee contracts of pop_count/ripple_carry, and that every auxiliary variable is defined exactly once (unique extension). Bounded only in n and k (quick n<=9, thorough n<=16,k<=40); int_to_binary is proved for all k by pyvc.wp; dispatch and request round-trip are bounded evaluation on the real code.",
+                note="Bounded in (n,k); Lemma DE is a paper lemma; z3/cvc5 and pycryptosat trusted; math.log evaluated concretely per shape.", ref="4.1 C10"),
     "C12": dict(cat="other", tech="contracts on the real builders; concolic execution, gates proved for all inputs (loop-free, all paths), adders/pop count per width by z3 against callee contracts",
                 text="half/full/saturate adders: loop-free, every path explored and covered by the precondition, clause set equivalent to the definitions for all ids and assignments (proved). ripple_carry, ripple_saturate, pop_count: proved per width against callee contracts (sum equation with documented top-bit saturation; every fresh variable defined exactly once => no other freedom). Bounded in width only.",
                 note="Widths bounded (quick: ripple<=10, pop count n<=16); Lemma DE on paper; SMT solvers trusted.", ref="4.1 C12"),
